@@ -127,7 +127,7 @@ func c06Specs() map[string]*c06Spec {
 		{Name: "s", Cmds: []C{P()}},
 	}}, dedup: map[string]*c06Task{"s": {mode: "always", refs: 3}}}
 	// when_changed with the variable reaching different places of the callee
-	for _, flow := range []string{"cmd", "env", "subcall", "dynvar", "same"} {
+	for _, flow := range []string{"cmd", "env", "subcall", "dynvar", "same", "same_silent"} {
 		s := &T{Name: "s", Run: "when_changed"}
 		dt := &c06Task{mode: "when_changed", keys: []string{"1", "2"}, flow: flow}
 		tasks := []*T{}
@@ -144,20 +144,23 @@ func c06Specs() map[string]*c06Spec {
 		case "dynvar":
 			s.RawLines = []string{"vars:", "  Y: {sh: 'echo {{.X}}'}"}
 			s.Cmds = []C{{Extra: "{{.Y}}"}, P()}
-		case "same":
+		case "same", "same_silent":
+			// (same_silent: some of the references are marked silent; that is not a variable)
 			s.Cmds = []C{{Extra: "{{.X}}"}, P()}
 			dt.keys = []string{"1"}
 		}
 		x2 := "2"
-		if flow == "same" {
+		if flow == "same" || flow == "same_silent" {
 			x2 = "1"
 		}
 		ref := func(x string) Ref { return Ref{Task: "s", VP: "=", Vars: [][2]string{{"X", x}}} }
 		r1, r2, r3 := ref("1"), ref(x2), ref("1")
+		sil := flow == "same_silent"
+		r1.Silent = sil
 		tasks = append([]*T{
 			{Name: "root", Deps: []Ref{D("a"), D("b")}, Cmds: []C{{Call: &r3}, P()}},
 			{Name: "a", Deps: []Ref{r1}, Cmds: []C{P()}},
-			{Name: "b", Cmds: []C{{Call: &r2}, P()}},
+			{Name: "b", Cmds: []C{{Call: &r2, Silent: sil}, P()}},
 			s,
 		}, tasks...)
 		m["when_changed-"+flow] = &c06Spec{pg: &Prog{Tasks: tasks}, dedup: map[string]*c06Task{"s": dt}}
